@@ -10,6 +10,7 @@ import (
 	"os/exec"
 	"path/filepath"
 	"regexp"
+	"runtime"
 	"sort"
 	"strings"
 	"sync"
@@ -465,12 +466,32 @@ type solveResult struct {
 	output string
 }
 
+var solverSlots = make(chan struct{}, solverProcs())
+
+func solverProcs() int {
+	n := runtime.NumCPU()
+	if n < 2 {
+		n = 2
+	}
+	return n
+}
+
 func runSolver(ctx context.Context, cfg SolverCfg, file string, script string, timeout time.Duration) solveResult {
 	path := file
 	if cfg.Pre != "" {
 		path = file + "." + cfg.Name + ".smt2"
 		os.WriteFile(path, []byte(cfg.Pre+script), 0o644)
 		defer os.Remove(path)
+	}
+	// at most one solver process per core at any time (the time limit starts when it starts)
+	select {
+	case solverSlots <- struct{}{}:
+	case <-ctx.Done():
+		return solveResult{"unknown", cfg.Name, 0, "cancelled"}
+	}
+	defer func() { <-solverSlots }()
+	if ctx.Err() != nil {
+		return solveResult{"unknown", cfg.Name, 0, "cancelled"}
 	}
 	cctx, cancel := context.WithTimeout(ctx, timeout)
 	defer cancel()
@@ -497,9 +518,13 @@ func runSolver(ctx context.Context, cfg SolverCfg, file string, script string, t
 
 // race runs the solvers on the script: first a quick attempt with the primary solver, then all in parallel.
 func race(file, script string, timeout time.Duration, want2 bool) []solveResult {
+	return raceOpt(file, script, timeout, want2, false)
+}
+
+func raceOpt(file, script string, timeout time.Duration, want2, skipQuick bool) []solveResult {
 	os.WriteFile(file, []byte(script), 0o644)
 	var results []solveResult
-	if !want2 {
+	if !want2 && !skipQuick {
 		quick := 3 * time.Second
 		if timeout < quick {
 			quick = timeout
@@ -578,24 +603,46 @@ func raceWithCases(file, script string, conds []string, timeout time.Duration) [
 			os.Remove(cf)
 		}(cf, sb.String())
 	}
-	all := true
-	for m := 0; m < n; m++ {
-		cr := <-ch
-		if os.Getenv("VERIF_DEBUG") != "" {
-			fmt.Fprintf(os.Stderr, "case of %s: %s %d ms\n", filepath.Base(file), cr.status, cr.ms)
-		}
-		if cr.status != "unsat" {
-			all = false
-			break
+	// in parallel: the other solvers on the whole query
+	full := make(chan solveResult, len(solvers))
+	nFull := 0
+	for _, sv := range solvers[1:] {
+		nFull++
+		go func(sv SolverCfg) { full <- runSolver(ctx, sv, file, script, timeout) }(sv)
+	}
+	casesLeft, casesOK := n, true
+	var undecided []solveResult
+	for casesLeft > 0 || nFull > 0 {
+		select {
+		case cr := <-ch:
+			casesLeft--
+			if os.Getenv("VERIF_DEBUG") != "" {
+				fmt.Fprintf(os.Stderr, "case of %s: %s %d ms\n", filepath.Base(file), cr.status, cr.ms)
+			}
+			if cr.status == "sat" {
+				// the whole query is satisfiable in this case
+				cancel()
+				return []solveResult{{"sat", solvers[0].Name, time.Since(t0).Milliseconds() + r.ms, cr.output}}
+			}
+			if cr.status != "unsat" {
+				casesOK = false
+			}
+			if casesLeft == 0 && casesOK {
+				cancel()
+				return []solveResult{{"unsat", fmt.Sprintf("%s/cases(%d)", solvers[0].Name, n), time.Since(t0).Milliseconds() + r.ms, ""}}
+			}
+		case fr := <-full:
+			nFull--
+			if fr.status == "unsat" || fr.status == "sat" {
+				cancel()
+				return []solveResult{fr}
+			}
+			undecided = append(undecided, fr)
 		}
 	}
-	cancel()
-	if all {
-		return []solveResult{{"unsat", fmt.Sprintf("%s/cases(%d)", solvers[0].Name, n), time.Since(t0).Milliseconds() + r.ms, ""}}
-	}
-	rs := race(file, script, timeout, true)
-	// race(want2=true) skips the quick stage; one definitive answer suffices here
-	return rs
+	// nothing decided: one more attempt of the primary solver on the whole query
+	last := runSolver(context.Background(), solvers[0], file, script, timeout)
+	return append([]solveResult{last}, undecided...)
 }
 
 var modelRe = regexp.MustCompile(`\(define-fun\s+(\S+|\|[^|]*\|)\s+\(\)\s+(\(_ BitVec \d+\)|Bool)\s+(#x[0-9a-fA-F]+|#b[01]+|true|false)\)`)
